@@ -10,6 +10,16 @@ CLAIMED = {
         "note": "NumPy is the reference model; statements NumPy rejects or warns about are not generated; regions of listed open known findings are excluded by construction and counted; float comparison within 256 eps of the coarsest float dtype times the largest magnitude in the program.",
         "technique": "property-based testing: random programs vs NumPy reference model (differential)",
     },
+    "C02": {
+        "text": PROG + ", rewrite-dense weighting; raw/simplified/lowered/fused forms each computed with optimisation off and compared; every fired rewrite recorded (hooks wrapped harness-side) and both sides computed and compared; fused tasks' external input keys and block values compared with the un-fused group. " + EXPL,
+        "note": "An expression 'denotes' what it computes with array.optimize-graph=False; sides that cannot be computed un-optimised are skipped and counted.",
+        "technique": "property-based testing: differential (phase vs raw, rewrite before vs after, fused vs unfused block inputs)",
+    },
+    "C08": {
+        "text": PROG + "; simplify/lower/fuse/optimize must return (120 s watchdog), be idempotent by name, and a program computable without optimisation must compute with it. " + EXPL,
+        "note": "Non-termination is only detected by a watchdog 3 orders of magnitude above the median case time.",
+        "technique": "property-based testing: idempotence + metamorphic (raw computes => optimised computes)",
+    },
     "C03": {
         "text": PROG + "; every variable's graph is executed by the harness' own executor and every block of the advertised grid is compared with .chunks, result shape/dtype with the advertised ones, optimize-graph on and off. " + EXPL,
         "note": "Trusts the harness executor (dask._task_spec tasks called with their dependency values); unknown (NaN) sizes only checked for block count.",
